@@ -87,6 +87,13 @@ func main() {
 			return fmt.Errorf("%s: %v", rel, err)
 		}
 		if changed || src != p {
+			if !changed {
+				// a replacement file that needs no rewriting is laid over as it is
+				nb, err = os.ReadFile(src)
+				if err != nil {
+					return err
+				}
+			}
 			dst := filepath.Join(ovDir, rel)
 			must(os.MkdirAll(filepath.Dir(dst), 0o755))
 			must(os.WriteFile(dst, nb, 0o644))
